@@ -170,6 +170,9 @@ pub(crate) fn path_key_from_garde(path: &garde::error::Path) -> PathKey {
 
     let mut segs: Vec<PathSegment> = path
         .__iter()
+        // A component without a key ("the value inside an `Option`", the field of a 1-tuple
+        // struct) names nothing in the YAML: the value sits where its parent does.
+        .filter(|(k, _)| !matches!(k, Kind::None))
         .map(|(k, s)| match k {
             Kind::Index => PathSegment {
                 kind: PathKind::Index,
